@@ -62,6 +62,9 @@ func DebugGen(args []string) int {
 func GenByProfile(profile string, seed int64, i int, id string) *scen.Scenario {
 	r := core.Rand(seed, profile, i)
 	switch profile {
+	case "layout":
+		return scen.GenLayout(r, scen.LayoutCfg{MaxIfaces: 3, MaxMethods: 40, Surround: true, Comments: true, OneLine: true,
+			NotationsIface: true, DoclessIface: 0.3, Imports: true, BuildVariants: true, PkgDoc: true}, id, id)
 	default:
 		return scen.GenBroad(r, scen.Broad(), id, id)
 	}
